@@ -46,11 +46,44 @@ func c14(p *an.Prog, r *an.R, tier string) {
 		defs := map[types.Object]string{}
 		// expressions are compared by shape with local variable names replaced
 		// by their types, so renaming a variable or parameter changes nothing
+		// single-definition locals are replaced by their definition (`repo := repos[key]; repo.Branches`
+		// is `repos[key].Branches`)
+		defExpr := map[types.Object]ast.Expr{}
+		defCount := map[types.Object]int{}
+		ast.Inspect(d.Decl.Body, func(n ast.Node) bool {
+			as, ok := n.(*ast.AssignStmt)
+			if !ok {
+				return true
+			}
+			for i, lh := range as.Lhs {
+				if id, ok := lh.(*ast.Ident); ok {
+					if o := info.ObjectOf(id); o != nil {
+						defCount[o]++
+						if len(as.Lhs) == len(as.Rhs) {
+							defExpr[o] = as.Rhs[i]
+						} else {
+							defExpr[o] = nil
+						}
+					}
+				}
+			}
+			return true
+		})
+		depth := 0
 		var normalise func(e ast.Expr) string
 		normalise = func(e ast.Expr) string {
 			switch x := ast.Unparen(e).(type) {
 			case *ast.Ident:
 				if v, ok := info.ObjectOf(x).(*types.Var); ok && !v.IsField() && v.Parent() != v.Pkg().Scope() {
+					if de := defExpr[v]; de != nil && defCount[v] == 1 && depth < 4 {
+						switch ast.Unparen(de).(type) {
+						case *ast.IndexExpr, *ast.SelectorExpr, *ast.Ident:
+							depth++
+							out := normalise(de)
+							depth--
+							return out
+						}
+					}
 					return "<" + an.TypeName(v.Type()) + ">"
 				}
 				return x.Name
